@@ -76,6 +76,7 @@ func docCaseKinds(env *core.Env, prop string, idx int, variants int, fragile boo
 	g.EmptyRequired = rng.Intn(4) == 0
 	g.Density = []float64{0.6, 1, 1.6}[rng.Intn(3)]
 	g.MaxDepth = 2 + rng.Intn(4)
+	g.BigMaps = rng.Intn(8) == 0
 	return g, kind, g.Gen(kind), false
 }
 
